@@ -48,10 +48,13 @@ type Run struct {
 	Findings []Finding
 	seenKeys map[string]bool
 
-	SimTime  time.Duration // simulated time covered
-	Steps    int           // scheduler / event-loop steps
-	Known    map[string]bool
-	Aborted  bool
+	SimTime time.Duration // simulated time covered
+	Steps   int           // scheduler / event-loop steps
+	Known   map[string]bool
+	Aborted bool
+	// Quiet runs record nothing and take no lock: used by the free-running race-detector leg, where
+	// the harness must not add happens-before edges between the tasks' library calls.
+	Quiet    bool
 	curLabel atomic.Value
 }
 
@@ -63,6 +66,9 @@ func NewRun(c *Chooser, cfg Config, known map[string]bool) *Run {
 // Event appends one line to the run's event log. The log never draws from the
 // tape and never reads a clock, so logging cannot perturb the schedule.
 func (r *Run) Event(format string, args ...any) {
+	if r.Quiet {
+		return
+	}
 	s := fmt.Sprintf(format, args...)
 	r.mu.Lock()
 	r.nEvents++
@@ -77,6 +83,9 @@ func (r *Run) Event(format string, args ...any) {
 }
 
 func (r *Run) Fault(kind string) {
+	if r.Quiet {
+		return
+	}
 	r.mu.Lock()
 	r.Faults[kind]++
 	r.mu.Unlock()
@@ -84,6 +93,9 @@ func (r *Run) Fault(kind string) {
 }
 
 func (r *Run) Probe(name string) {
+	if r.Quiet {
+		return
+	}
 	r.mu.Lock()
 	r.Probes[name]++
 	r.mu.Unlock()
@@ -226,6 +238,15 @@ func classify(v any) string {
 // Call runs one library call under recover. It returns nil when the call
 // returned normally.
 func (r *Run) Call(label string, f func()) (p *PanicInfo) {
+	if r.Quiet {
+		defer func() {
+			if v := recover(); v != nil {
+				p = &PanicInfo{Value: fmt.Sprint(v), Frame: innermostModuleFrame(), Kind: classify(v)}
+			}
+		}()
+		f()
+		return nil
+	}
 	Beat(label)
 	defer func() {
 		if v := recover(); v != nil {
